@@ -77,7 +77,7 @@ let parse_items (s : string) : tree list =
     | c -> incr pos;
       let it = (match c with
         | 'F' | 'D' -> let i = !next in incr next; at_alias i; TSink (fresh (n_of_int i) false false)
-        | 'R' | 'r' | 'q' | 'Q' | 'K' -> let i = !next in incr next; at_alias i; TSink (fresh (n_of_int i) true false)
+        | 'R' | 'r' | 'q' | 'Q' | 'K' | 'Z' -> let i = !next in incr next; at_alias i; TSink (fresh (n_of_int i) true false)
         | 'B' | 'k' -> let i = !next in incr next; broken_sids := i :: !broken_sids; TSink (fresh (n_of_int i) false true)
         | '(' -> let l = items () in (if !pos < String.length s && s.[!pos] = ')' then incr pos); TPipe l
         | 'g' | 'n' | 'e' | 'x' | 'l' | 'y' -> TFilter (flt_of c)
